@@ -342,7 +342,9 @@ pub fn run(tier: Tier) -> ! {
                 return; // the oracle itself accepts this spelling: nothing to demand
             }
             let mode = |name: &str, pats: Vec<CPat>| CMode { name: name.into(), pats, transitions: vec![] };
-            let la = |p: &str, pos: bool, l: &str| CPat { pat: p.into(), tt: 0, la: Some((pos, l.into())) };
+            // (token type 2: a lookahead pattern never shares its token type with another pattern here,
+            // see the remark on slots 8..10)
+            let la = |p: &str, pos: bool, l: &str| CPat { pat: p.into(), tt: 2, la: Some((pos, l.into())) };
             let layouts: Vec<(&str, Cfg)> = vec![
                 ("accepted pattern, then rejected pattern in one mode", Cfg { modes: vec![mode("A", vec![CPat::new(g, 0), CPat::new(b, 1)])] }),
                 ("rejected pattern, then accepted pattern in one mode", Cfg { modes: vec![mode("A", vec![CPat::new(b, 0), CPat::new(g, 1)])] }),
